@@ -27,10 +27,10 @@ RULE = ("ADMGs (2-6 nodes; parallel directed+bidirected pairs, bidirected chains
         "agreement clause with a non-empty conditioning set or a bidirected edge that matters, or a cyclic graph with adjacent "
         "or connected endpoints.")
 ASSUMPTIONS = [
-    "agreement with m-separation on acyclic graphs: see Props/C20.lean for what is proved; directions marked OPEN there rest on "
-    "this check's path oracle only",
     "adjacency clause is read with both endpoints outside the conditioning set (a path with a conditioned endpoint is closed by "
     "the definition of Z-sigma-open; the code answers 'separated' there and the theorem sigma_endpoint_conditioned says so)",
+    "agreement is proved against m-connecting paths / d-connection in the canonical latent DAG (Spec/SepSpec.lean); that these "
+    "imply conditional independence in compatible models is the clause left OPEN in C04",
     "nx.all_simple_paths is modelled as a depth-first enumeration of simple paths; the order of enumeration is irrelevant to the "
     "verdict (any); Python set iteration order over backtrack neighbours likewise",
 ]
@@ -86,7 +86,7 @@ def rand_collider_chain(rng):
 
 def cases(rng: random.Random, tier: str):
     out = [dict(c) for c in CORPUS] + _load_corpus()
-    for _ in range(1100 if tier == "quick" else 8000):
+    for _ in range(6000 if tier == "quick" else 40000):
         r = rng.random()
         if r < 0.12:
             g, a, b, Cs = rand_collider_chain(rng)
@@ -94,7 +94,7 @@ def cases(rng: random.Random, tier: str):
             g = rand_admg(rng, 2, 6)
             a, b, Cs = rand_query(rng, g)
         else:
-            g = G.rand_graph(rng, 2, 5, acyclic=False)
+            g = G.rand_graph(rng, 2, 5, acyclic=False, pd=rng.choice([0.3, 0.5, 0.7]))
             V = G.all_nodes(g)
             if len(V) < 2:
                 continue
@@ -114,7 +114,7 @@ def cases(rng: random.Random, tier: str):
         elif r < 0.4:
             b = 91
         out.append({"kind": "one", "g": g, "a": a, "b": b, "C": Cs})
-    for _ in range(50 if tier == "quick" else 400):
+    for _ in range(200 if tier == "quick" else 1500):
         g = rand_admg(rng, 2, 4) if rng.random() < 0.5 else G.rand_graph(rng, 2, 4, acyclic=False)
         out.append({"kind": "table", "g": g})
     for _ in range(40 if tier == "quick" else 300):
@@ -277,15 +277,20 @@ def finding_key(case, res):
 
 
 MANIFEST = {
-    "text": ("Proof (partial until the agreement clause is complete): Lean theorems about the executable model of "
-             "are_sigma_separated — symmetry of the verdict in (a, b) on every mixed graph (path reversal, every triple predicate "
-             "and the backtrack augmentation are reversal-invariant), adjacency (two distinct nodes joined by an edge, neither "
-             "conditioned on, are never reported separated) and the behaviour when an endpoint is conditioned on, on every mixed "
-             "graph, cyclic or not; agreement with m-separation on acyclic graphs as far as stated in lean/Y0/Props/C20.lean (the "
-             "full statement is kept there; what is not proved is marked OPEN). Tied to sigma_separation.py on every run by "
-             "differential correspondence (queries, verdict tables, equivalence classes); the C04 path oracle on the canonical "
-             "latent DAG searches for a failing input of the agreement clause, direct re-evaluation for symmetry/adjacency."),
+    "text": ("Proof: 12 Lean theorems about the executable model of are_sigma_separated (the code after the two fixes of defect F9). "
+             "On EVERY mixed graph from_edges can build — cycles, self-loops, parallel edges — and all arguments: the outcome for "
+             "(a, b) equals the outcome for (b, a), verdict or error (sigma_symm: the DFS enumerates exactly the simple paths, "
+             "simple paths reverse, every triple predicate and the backtrack augmentation are reversal invariant); two distinct "
+             "nodes joined by an edge, neither conditioned on, are never reported separated (sigma_adjacent), and with a "
+             "conditioned endpoint the answer is 'separated' (sigma_endpoint_conditioned); the only failure is an endpoint that is "
+             "not a node (sigma_missing_node). On every ACYCLIC mixed graph, for all distinct nodes a, b and every C the verdict is "
+             "'separated' exactly when there is no m-connecting path (sigma_iff_mseparated), i.e. exactly when a, b are "
+             "d-separated given C in the canonical latent DAG (sigma_iff_dsep_canonical), and it coincides with the verdict of "
+             "are_d_separated (sigma_agrees_with_dsep). Tied to sigma_separation.py on every run by differential correspondence "
+             "(queries, verdict tables, equivalence classes); the C04 path oracle on the canonical latent DAG searches for a "
+             "failing input of the agreement clause, direct re-evaluation for symmetry/adjacency."),
     "note": ("Trusted: Lean kernel; axioms propext/Classical.choice/Quot.sound; hand-written model tied to the code by sampling; "
-             "nx.all_simple_paths modelled as DFS over simple paths. Clauses marked OPEN rest on correspondence + oracle only."),
-    "technique": "Lean 4 theorems (path reversal, two-node path) + differential correspondence with are_sigma_separated + brute-force d-connecting-path oracle on ADMGs",
+             "nx.all_simple_paths modelled as DFS over simple paths; the definitions of m-connecting path and canonical DAG in "
+             "Spec/SepSpec.lean."),
+    "technique": "Lean 4 theorems (DFS = simple paths, path reversal, edge-by-edge walk construction with 2-cycle exclusion) + differential correspondence with are_sigma_separated + brute-force d-connecting-path oracle on ADMGs",
 }
